@@ -239,3 +239,11 @@ MUTANTS += [
             pop_shape_memo()""")]),
     dict(id="c05-args-shared-with-caller", property="C05", edits=[(S, "    memos = ({}, {}, {}, arguments.copy())\n", "    memos = ({}, {}, {}, dict(memo_stack[-1][3], **arguments) if memo_stack else arguments.copy())\n")]),
 ]
+
+_NS = "type('NS', (), {})()"
+MUTANTS += [
+    # ---- C06
+    dict(id="c06-shape-storage-global", property="C06", edits=[(S, "_shape_storage = threading.local()", "_shape_storage = " + _NS)]),
+    dict(id="c06-treepath-storage-global", property="C06", edits=[(S, "_treepath_storage = threading.local()", "_treepath_storage = " + _NS)]),
+    dict(id="c06-treeflatten-storage-global", property="C06", edits=[(S, "_treeflatten_storage = threading.local()", "_treeflatten_storage = " + _NS)]),
+]
